@@ -320,6 +320,8 @@ pub struct ClientSim {
     /// The connection switched to event streaming (submit --wait); job id once known
     pub streaming: bool,
     pub closed: bool,
+    /// the client itself hung up (otherwise a closed connection was closed by the server)
+    pub closed_by_client: bool,
 }
 
 /* ---------------------------------------------------------------------------------------- */
@@ -947,6 +949,7 @@ impl World {
                 outstanding_since: 0,
                 streaming: false,
                 closed: false,
+                closed_by_client: false,
             },
         );
     }
@@ -1773,6 +1776,7 @@ impl World {
                 }
                 cl.input.borrow_mut().push_back(None);
                 cl.closed = true;
+                cl.closed_by_client = true;
             }
             Some(msg) => {
                 if cl.streaming {
